@@ -6,12 +6,13 @@
    one-sided peer-loss detections, interface notifications, local and remote switchover
    halves) under configuration [cs], every Manager call being one atomic step; [frun] (Fine.v)
    is the same with every critical section of a call as one step and any number of calls in
-   progress.  [v] selects defective or repaired behaviour for each of the five recorded defects
-   (Model.v): [Head] = /repo HEAD (hb, if, fc repaired and committed; sa, ia recorded as known
-   findings with fix patches), [Repaired] = all five, [Defective] = the code before any fix.
-   A theorem with a hypothesis [fix_xx v = true] holds for the repaired behaviour of that
-   defect only; the matching [_refuted] example shows the defective behaviour violating it.
-   Theorems without such a hypothesis hold for every variant, HEAD included.
+   progress.  [v] selects, per defect found and since fixed in /repo, the original or the HEAD
+   behaviour (Model.v): [Head] (= [Repaired]) is /repo HEAD, all five fixes committed (8396862,
+   82065c3, b0a3819, 466d014, e4bb362); [BeforeRaceFixes] is /repo before the last two;
+   [Defective] is /repo before any of them.  No finding of this property is open.
+   A theorem with a hypothesis [fix_xx v = true] needs that fix (so it holds for HEAD); the matching
+   [_refuted] example is the historical witness: the same statement fails for the original behaviour.
+   Theorems without such a hypothesis hold for every variant.
    [ids_ok cs]: the two node ids are non-empty and different Go strings. *)
 From OV Require Import Common.Base C10.Model C10.Fine C10.Proofs C10.FineAtomic C10.FineProofs.
 Local Open Scope Z_scope.
@@ -137,7 +138,7 @@ Print Assumptions C10_standby_peer_lost.
 
 Definition cs_track : cfgs := (mkCfg [49%N] 100 false 50 2, mkCfg [50%N] 200 false 50 2).
 Definition to_standby_a : list ev := [EStart A; EStart B; ESend A; EDeliver B 0; EDeliver A 0].
-(* current code: down, deleted, up for ONE interface leave a phantom count; the STANDBY node
+(* before 82065c3: down, deleted, up for ONE interface leave a phantom count; the STANDBY node
    then promotes itself on peer loss although no tracked interface is down *)
 Example C10_standby_peer_lost_refuted :
   let es := to_standby_a ++ [EIf A 0 true; EIf A 0 true; EIf A 0 false] in
@@ -157,7 +158,7 @@ Theorem C10_dual_active_resolves : forall v cs a b,
 Proof. exact dual_active_resolves. Qed.
 Print Assumptions C10_dual_active_resolves.
 
-(* every variant, the current code included: two exchanges always suffice *)
+(* every variant (also the original code): two exchanges always suffice *)
 Theorem C10_dual_active_resolves_in_two : forall v cs a b w1 w2,
   ids_ok cs ->
   is_active (n_st a) = true -> is_active (n_st b) = true ->
@@ -169,7 +170,7 @@ Definition cs_plain_ab : cfgs := (mkCfg [49%N] 200 false 0 0, mkCfg [50%N] 100 f
 (* A (200) ACTIVE, B (100) STANDBY *)
 Definition to_standby_b : list ev := [EStart A; EStart B; ESend A; EDeliver B 0; EDeliver A 0].
 Definition cs_plain : cfgs := (mkCfg [49%N] 100 false 0 0, mkCfg [50%N] 200 false 0 0).
-(* current code: A forced out of STANDBY_ALONE while B is ACTIVE_SOLO; a complete exchange
+(* before b0a3819: A forced out of STANDBY_ALONE while B is ACTIVE_SOLO; a complete exchange
    initiated by B leaves both ACTIVE *)
 Example C10_dual_active_resolves_refuted :
   let es := to_standby_a ++ [EPeerLost A; EPeerLost B; ESwLocal A true] in
@@ -210,7 +211,7 @@ Proof. exact fixpoint_has_active. Qed.
 Print Assumptions C10_fixpoint_has_active.
 
 Definition cs_design : cfgs := (mkCfg [49%N] 200 false 50 3, mkCfg [50%N] 100 false 50 3).
-(* current code (DESIGN.md section 6): priorities 200/100, no preempt, the active node is
+(* before 8396862 (DESIGN.md section 6): priorities 200/100, no preempt, the active node is
    decremented to 50, loses its peer one-sidedly, re-elects and loses: both STANDBY, in contact,
    not moved by exchanges in either direction *)
 Example C10_no_stable_headless_refuted :
@@ -311,27 +312,27 @@ Theorem C10_fine_promotion_provenance : forall v c n t,
 Proof. exact thr_provenance. Qed.
 Print Assumptions C10_fine_promotion_provenance.
 
-(* HEAD: handlePeerLost parked between "peerNodeID = ''" and sm.PeerLost while a heartbeat is handled:
+(* before 466d014: handlePeerLost parked between "peerNodeID = ''" and sm.PeerLost while a heartbeat is handled:
    B ends STANDBY_ALONE with a known peer, no call in progress.  After a switchover of A the pair is
    STANDBY / STANDBY_ALONE and no heartbeat exchange moves it: headless for ever.
-   (replayed on the real code by the forced-overlap harness: corpus/C10/overlap.case) *)
+   (was replayed on the real code by the forced-overlap harness; corpus/C10/overlap.case now passes) *)
 Example C10_fine_standby_alone_known_peer_refuted :
   let es := map FCoarse to_standby_b ++
             [FLost B; FMicro B 0; FCoarse (ESend A); FCoarse (EDeliver B 0); FMicro B 0; FMicro B 0; FCoarse (EDeliver A 0);
              FCoarse (ESwLocal A false); FCoarse (ESwRemote B)] in
-  let s := frun Head cs_plain_ab (finit cs_plain_ab) es in
+  let s := frun BeforeRaceFixes cs_plain_ab (finit cs_plain_ab) es in
   let a := p_a (f_p s) in let b := p_b (f_p s) in
   quiescent s = true /\ n_st a = Standby /\ n_st b = StandbyAlone /\ n_pknown b = true /\
-  absn (xchg Head cs_plain_ab A (a, b)) = absn (a, b) /\
-  absn (xchg Head cs_plain_ab B (a, b)) = absn (a, b) /\
-  absn (xchgs Head cs_plain_ab [A; B; A; B; A; B] (a, b)) = absn (a, b) /\
+  absn (xchg BeforeRaceFixes cs_plain_ab A (a, b)) = absn (a, b) /\
+  absn (xchg BeforeRaceFixes cs_plain_ab B (a, b)) = absn (a, b) /\
+  absn (xchgs BeforeRaceFixes cs_plain_ab [A; B; A; B; A; B] (a, b)) = absn (a, b) /\
   (* repaired: the same schedule, then three exchanges *)
   (let s' := frun Repaired cs_plain_ab (finit cs_plain_ab) es in
    pair_one_active (xchgs Repaired cs_plain_ab [A; A; A] (p_a (f_p s'), p_b (f_p s'))) = true).
 Proof. vm_compute. repeat split. Qed.
 Print Assumptions C10_fine_standby_alone_known_peer_refuted.
 
-(* with the STANDBY_ALONE repair (fix_sa) the pair cannot stay headless after ANY interleaving of critical
+(* with the STANDBY_ALONE fix (fix_sa, 466d014: HEAD) the pair cannot stay headless after ANY interleaving of critical
    sections: whenever no call is in progress and both nodes are started, any three fresh exchanges leave
    exactly one active node and a pair no exchange moves *)
 Theorem C10_fine_no_stable_headless : forall v cs es w1 w2 w3,
@@ -343,7 +344,7 @@ Theorem C10_fine_no_stable_headless : forall v cs es w1 w2 w3,
 Proof. exact fine_converges. Qed.
 Print Assumptions C10_fine_no_stable_headless.
 
-(* with AdjustPriority inside the m.mu section (fix_ia): under every interleaving, at every moment, the
+(* with AdjustPriority inside the m.mu section (fix_ia, e4bb362: HEAD): under every interleaving, at every moment, the
    effective priority is the value AdjustPriority computes from the CURRENT down count *)
 Theorem C10_fine_priority_matches_count : forall v cs es w,
   fix_ia v = true -> 0 <= c_prio (fst cs) < 2147483648 -> 0 <= c_prio (snd cs) < 2147483648 ->
@@ -352,12 +353,12 @@ Theorem C10_fine_priority_matches_count : forall v cs es w,
 Proof. exact fine_priority_matches_count. Qed.
 Print Assumptions C10_fine_priority_matches_count.
 
-(* HEAD: two interface events whose m.mu sections run in one order and whose AdjustPriority calls run in
+(* before e4bb362: two interface events whose m.mu sections run in one order and whose AdjustPriority calls run in
    the other: both interfaces down, no call in progress, priority decremented once
-   (reproduced on the real code by stress only: 3 of 400000 overlapping pairs, notes/C10.md) *)
+   (was reproduced on the real code by stress only: 3 of 400000 overlapping pairs, notes/C10.md) *)
 Example C10_fine_priority_matches_count_refuted :
   let es := [FIf A 0 true; FIf A 1 true; FMicro A 0; FMicro A 1; FMicro A 1; FMicro A 0; FMicro A 0; FMicro A 0] in
-  let s := frun Head cs_design (finit cs_design) es in
+  let s := frun BeforeRaceFixes cs_design (finit cs_design) es in
   quiescent s = true /\ n_cnt (p_a (f_p s)) = 2 /\ n_eff (p_a (f_p s)) = 150 /\
   eff_code (fst cs_design) 2 = 100 /\
   n_eff (p_a (f_p (frun Repaired cs_design (finit cs_design) es))) = 100.
